@@ -87,8 +87,8 @@ class Monitor:
         if t == 0:
             ln = data[0] & 0xF
             self.sf_payloads.append(bytes(data[1:1 + ln]))
-            if ln == 0 and len(data) > 2:
-                # CAN-FD escape: length in the second byte
+            if ln == 0 and len(data) > 8:
+                # CAN-FD escape (only frames longer than 8 bytes): length in the second byte
                 self.sf_payloads.append(bytes(data[2:2 + data[1]]))
         elif t == 1 and len(data) >= 2:
             self.ff_len = ((data[0] & 0xF) << 8) | data[1]
